@@ -169,6 +169,8 @@ class SchedStore(QueueStorage):
         with self.eng.flight():
             id = self.inner.write(envelope, timestamp)
         self.eng.on_write(tag, id, timestamp)
+        if self.eng.cfg.get('late'):
+            self.eng.park('write_done', tag)        # the message is in the store, the caller has not been told yet
         return id
 
     def set_timestamp(self, id, timestamp):
@@ -206,6 +208,8 @@ class SchedStore(QueueStorage):
         with self.eng.flight():
             env, attempts = self.inner.get(id)
         self.eng.remember(env, tag)
+        if self.eng.cfg.get('late'):
+            self.eng.park('get_done', tag)          # the read has happened, its answer is still on the way (it may be stale by then)
         return env, attempts
 
     def remove(self, id):
